@@ -93,7 +93,9 @@ def profile_for(consts, variant=0, dim=3):
             "rels": g("Rels"), "gname": consts["GName"].strip('"'), "dim": dim, "variant": variant}
 
 
-def model_check(chk, name, consts, workers=None, timeout=900, spec="Spec"):
+def model_check(chk, name, consts, workers=None, timeout=900, spec=None):
+    # thorough tier: SpecG (behaviours cut at MaxOps inside the next-state relation; same states, last level not expanded)
+    spec = spec or ("Spec" if chk.tier == "quick" else "SpecG")
     cfg = make_cfg(spec, consts, INVS, PROPS, constraint="Bound", view="View")
     r = run_tlc("MC_Kektor", name + ".cfg", cfg_text=cfg, workers=workers, timeout=timeout)
     chk.add_tlc(name, r)
@@ -105,6 +107,10 @@ def model_check(chk, name, consts, workers=None, timeout=900, spec="Spec"):
 
 def corpus(chk, name, consts, simulate=None, depth=None, workers=4, timeout=900, rejleaf=False, view=None, spec="SpecCorpus"):
     cfg = make_cfg(spec, consts, [], [], constraint="BoundRejLeaf" if rejleaf else "Bound", view=view or ("ViewRej" if rejleaf else "View"))
+    if not simulate and chk.tier == "quick":
+        # one worker: BFS is then deterministic (with several workers which history reaches a state first varies from
+        # run to run, and with it the corpus); the corpus specifications do not expand the last level, so this is fast
+        workers = 1
     r = run_tlc("MC_Kektor", name + ".cfg", cfg_text=cfg, workers=workers, timeout=timeout,
                 simulate=simulate, depth=depth, seed_=vlib.seed() if simulate else None)
     if not simulate:
